@@ -77,7 +77,7 @@ func init() {
 		Prop:  "C03",
 		Level: "exploration",
 		Rule: "a reference model of the writer configuration (normal list, error list, per-level lists, package defaults for a logger never given writers) is advanced with each operation sequence; the sequence is applied to a fresh root and to a child of a configured parent, as methods and (when every operation has one) as New(...) options; " +
-			"then one probe record with a unique id is issued at each of 14 severities (built-ins, custom with/without error device, unregistered) and the per-writer Write counts (recording writers of 6 shapes, fds 1/2 redirected onto files) must equal the selected list; LevelSettable destinations must have been told the severity before each Write. " +
+			"then - for the method form after EVERY operation, so that records emitted between reconfigurations are part of the history - one probe record with a unique id is issued at each of 15 severities (built-ins, custom levels with the error device, without it, gated like Error but without the error device, unregistered) and the per-writer Write counts (recording writers of 6 shapes, fds 1/2 redirected onto files) must equal the selected list; LevelSettable destinations must have been told the severity before each Write. " +
 			"exh: ALL sequences up to the length bound over a reduced alphabet (30 operations); rand: random sequences of 3-10 operations over the full alphabet (6 writers, 8 levels). A failing sequence is shrunk by dropping operations. non-trivial = every judged (logger kind, form, sequence); distinct = by that triple",
 		Assumptions: []string{"a removal that meets several copies of the writer may leave k-1 or 0 copies", "the package-level default writer itself is not reconfigured"},
 		Floors:      map[string]int64{"probes": 5000, "write_events": 3000, "fallback_bytes": 1000, "levelsettable_writes": 100},
@@ -86,7 +86,7 @@ func init() {
 			// alphabet 30: lengths <=2 -> 931 sequences, <=3 -> 27931
 			n := pick(tier, 931, 27931)
 			js := chunk("exh", "prod", n, pick(tier, 80, 1800), Job{Timeout: 30 * time.Minute})
-			js = append(js, chunk("rand", "prod", pick(tier, 16000, 100000), pick(tier, 1000, 6500), Job{Timeout: 30 * time.Minute})...)
+			js = append(js, chunk("rand", "prod", pick(tier, 8000, 100000), pick(tier, 500, 6500), Job{Timeout: 30 * time.Minute})...)
 			return js
 		},
 	})
@@ -169,7 +169,7 @@ func init() {
 	register(&Plan{
 		Prop:  "C12",
 		Level: "exploration",
-		Rule: "matrix: the complete product {7 entry-point families that can carry the severity: verb, Context verb, LogAttrs, Logit, Log(log/slog level), package verb, package Context verb} x {Panic, Fatal} x {no-interrupt flag} x {interrupt-always flag} x {production, under-go-test process} x {admitted, not} x {json, logfmt, color} x {root, child | default} = 1152 cells (package functions only exist for the default logger); " +
+		Rule: "matrix: the complete product {7 entry-point families that can carry the severity: verb, Context verb, LogAttrs, Logit, Log(log/slog level), package verb, package Context verb} x {Panic, Fatal} x {no-interrupt flag} x {interrupt-always flag} x {production, under-go-test process} x {admitted, denied by an Off logger, denied by the level threshold (a Panic-level logger and a Fatal record)} x {json, logfmt, color} x {root, child | default} = 1440 cells (package functions only exist for the default logger); " +
 			"each cell is ONE child process built from the tree performing ONE call with an unbuffered file as destination; the parent observes exit status, the recovered panic value and the file. thorough = all cells, quick = every 8th cell starting at VERIF_SEED mod 8 (all 8 quick seeds together cover the matrix). " +
 			"negative: 8 probe processes (mode x flags) issue every other severity through every entry point (~350 calls each) and must survive. non-trivial = every judged cell; distinct = by cell",
 		Assumptions: []string{"a record present in the unbuffered file was written before the process terminated", "a 60 s watchdog per probe process; a timeout is inconclusive"},
@@ -178,10 +178,10 @@ func init() {
 		Jobs: func(tier string, seed int64) []Job {
 			var js []Job
 			if tier == "thorough" {
-				js = chunk("matrix", "prod", 1152, 72, Job{Timeout: 30 * time.Minute})
+				js = chunk("matrix", "prod", 1440, 90, Job{Timeout: 30 * time.Minute})
 			} else {
 				off := int(((seed % 8) + 8) % 8)
-				for i := off; i < 1152; i += 8 {
+				for i := off; i < 1440; i += 8 {
 					js = append(js, Job{Sub: "matrix", Mode: "prod", From: i, To: i + 1, Timeout: 10 * time.Minute})
 				}
 				// group them: one job per 16 cells
